@@ -60,6 +60,8 @@ def main():
             rd = tempfile.mkdtemp(prefix="oq-seedrep-")
             for prop in [a.prop] + [p for p in a.also.split(",") if p]:
                 env = dict(os.environ, VERIF_NO_EVIDENCE="1", VERIF_REPLAY_DIR=rd, VERIF_SEED=a.seed, OQ_VERIF_ROOT=wt, VERIF_CORES=a.cores)
+                if a.skip_tests:
+                    env["VERIF_STOP_AT_FIRST_VIOLATION"] = "1"
                 r = sh([PY, os.path.join(VERIF, "check.py"), prop, "--tier", a.tier], env=env, cwd=VERIF)
                 viol = [l for l in r.stdout.splitlines() if l.startswith("VIOLATION")]
                 subs = sorted({l.strip().split(":")[0] for l in r.stdout.splitlines() if l.strip().startswith("subcheck=")})
